@@ -21,8 +21,11 @@ from .srcmodel import Program
 ELEMENT, DELEGATED = "element", "delegated"
 
 
-def _root_attrs(e: ast.AST, aliases: dict[str, set[str]], helper_reads: dict[str, set[str]] | None = None) -> set[str]:
-    """First-level attributes of self an access path is rooted at (through aliases / self-helper calls)."""
+def _root_attrs(e: ast.AST, aliases: dict[str, set[str]], helper_reads: dict[str, set[str]] | None = None, *, strict: bool = False) -> set[str]:
+    """First-level attributes of self an access path is rooted at (through aliases / self-helper calls).
+
+    strict: the *value* of e is (an element of) the attribute itself - the result of calling a method on it (`self.a.evaluate(c)`,
+    `load(self.a)`) is something else and roots nowhere. Used for what children()/expressions() hand out."""
     while True:
         if isinstance(e, ast.Await):
             e = e.value
@@ -33,8 +36,10 @@ def _root_attrs(e: ast.AST, aliases: dict[str, set[str]], helper_reads: dict[str
             if isinstance(f, ast.Name) and f.id in ("zip", "zip_longest", "enumerate", "chain", "list", "iter", "reversed", "sorted", "tuple") or (isinstance(f, ast.Attribute) and f.attr in ("zip_longest", "chain")):
                 out: set[str] = set()
                 for a in e.args:
-                    out |= _root_attrs(a, aliases, helper_reads)
+                    out |= _root_attrs(a, aliases, helper_reads, strict=strict)
                 return out
+            if strict and not (isinstance(f, ast.Attribute) and f.attr in ("values", "items", "keys", "copy")):
+                return set()
             e = f
         elif isinstance(e, ast.Subscript):
             e = e.value
@@ -55,7 +60,7 @@ def _root_attr(e: ast.AST, aliases: dict[str, set[str]]) -> str | None:
     return r[0] if r else None
 
 
-def _aliases(fn: ast.AST, helper_reads: dict[str, set[str]] | None = None) -> dict[str, set[str]]:
+def _aliases(fn: ast.AST, helper_reads: dict[str, set[str]] | None = None, *, strict: bool = False) -> dict[str, set[str]]:
     """local name -> self attributes it may derive from (assignment, for/comprehension target)."""
     al: dict[str, set[str]] = {}
     changed = True
@@ -64,7 +69,7 @@ def _aliases(fn: ast.AST, helper_reads: dict[str, set[str]] | None = None) -> di
 
         def bind(target: ast.AST, src: ast.AST) -> None:
             nonlocal changed
-            a = _root_attrs(src, al, helper_reads)
+            a = _root_attrs(src, al, helper_reads, strict=strict)
             if not a:
                 return
             for t in ast.walk(target):
@@ -176,7 +181,7 @@ def static_contributions(prog: Program, ci: ClassInfo, method_names: tuple[str, 
         m = prog.find_method(ci, mn)
         if m is None:
             continue
-        al = _aliases(m.node)
+        al = _aliases(m.node, strict=True)
         # local accumulators (children = [...]; children.append(...); return children) are not contributions themselves
         delegated_locals: set[str] = {t.id for n_ in ast.walk(m.node) if isinstance(n_, ast.Assign) for t in n_.targets if isinstance(t, ast.Name)}
 
@@ -189,7 +194,7 @@ def static_contributions(prog: Program, ci: ClassInfo, method_names: tuple[str, 
             if isinstance(e, (ast.GeneratorExp, ast.ListComp)):
                 return classify(e.elt)
             if isinstance(e, ast.Call) and isinstance(e.func, ast.Attribute) and e.func.attr in ("children", "expressions", "children_async"):
-                return [(a, DELEGATED) for a in sorted(_root_attrs(e.func.value, al))]
+                return [(a, DELEGATED) for a in sorted(_root_attrs(e.func.value, al, strict=True))]
             if isinstance(e, ast.Call) and isinstance(e.func, ast.Attribute) and e.func.attr in ("values", "items", "keys"):
                 return classify(e.func.value)
             if isinstance(e, ast.Call) and isinstance(e.func, ast.Name) and e.func.id in ("list", "tuple", "iter", "chain", "reversed"):
@@ -197,7 +202,7 @@ def static_contributions(prog: Program, ci: ClassInfo, method_names: tuple[str, 
                 for a_ in e.args:
                     out_ += classify(a_)
                 return out_
-            return [(a, ELEMENT) for a in sorted(_root_attrs(e, al))]
+            return [(a, ELEMENT) for a in sorted(_root_attrs(e, al, strict=True))]
 
         def add(e: ast.AST, where: ast.AST) -> None:
             items: list[ast.AST] = []
